@@ -57,17 +57,22 @@ class _Runner(object):
                 hits[0][1], tokens, "strict and lenient" if len(hits) == 2 else ("lenient" if hits[0][0] else "strict")),
                 {"fmt": spec, "assign": A, "tokens": tokens, "lenient": hits[0][0]})
 
-    def format(self, spec, assignments, spell_all, cap, k, rng):
-        """all (or k sampled) spellings of every assignment"""
+    def format(self, spec, assignments, cap_all, k_over, rng):
+        """per assignment: every spelling when there are at most cap_all, otherwise k_over seeded random ones
+        (cap_all == 0: always k_over random ones)"""
         fmt = G.build_format(spec)
         fid = _fid(spec)
         for A in assignments:
-            if spell_all:
-                sp, complete = G.all_spellings(spec, A, cap)
+            sp = None
+            if cap_all:
+                sp, complete = G.all_spellings(spec, A, cap_all + 1)
                 if not complete:
+                    sp = None
                     self.capped += 1
             else:
-                sp = G.some_spellings(spec, A, rng, k)
+                self.capped += 1
+            if sp is None:
+                sp = G.some_spellings(spec, A, rng, k_over)
             for items, feats in sp:
                 self.line(spec, fid, fmt, A, items, feats)
             if self.ctx.out_of_time():
@@ -77,7 +82,7 @@ class _Runner(object):
     def note(self):
         n = []
         if self.capped:
-            n.append("%d assignments had more spellings than the cap (first `cap` in enumeration order taken)" % self.capped)
+            n.append("%d assignments were spelled by seeded sampling instead of all spellings" % self.capped)
         if self.stopped:
             n.append("stopped at the deadline")
         n.append("spelling features exercised: " + ", ".join("%s x%d" % kv for kv in sorted(self.feats.items())))
@@ -88,19 +93,16 @@ class _Runner(object):
 
 
 # ------------------------------------------------------------------ format families
-def _contexts_one_option(o):
-    """the three surroundings a single option variant is tested in"""
-    yield G.fmt_spec((), [o], ())
-    yield G.fmt_spec(G.CMD_NAMES[:1], [o], [G.arg_spec("first", "req", "str")])
-    yield G.fmt_spec(G.CMD_NAMES[:2], [o],
-                     [G.arg_spec("cmd11", "opt", "int", False, 5), G.arg_spec("rest", "multi", "str")], base=[1, 1, 1])
-
-
-def one_option_formats():
+def one_option_formats(nested):
+    """a single option variant in its surroundings: flat (no argument / one command name + required argument) or nested"""
     for mode, typ, nullable, short, d in G.option_variants():
         o = G.mk_opt(0, mode, typ, nullable, short, d)
-        for spec in _contexts_one_option(o):
-            yield spec
+        if not nested:
+            yield G.fmt_spec((), [o], ())
+            yield G.fmt_spec(G.CMD_NAMES[:1], [o], [G.arg_spec("first", "req", "str")])
+        else:
+            yield G.fmt_spec(G.CMD_NAMES[:2], [o],
+                             [G.arg_spec("cmd11", "opt", "int", False, 5), G.arg_spec("rest", "multi", "str")], base=[1, 1, 1])
 
 
 _TYPE_PAIRS = (("str", "int"), ("int", "bool"), ("float", "str"), ("bool", "float"))
@@ -138,12 +140,12 @@ def argument_formats(max_len):
                             yield G.fmt_spec(G.CMD_NAMES[:nn], opts, args, base)
 
 
-def _argument_assignments(spec, pos_pool):
-    oalts = [{}, {"alpha": ["flag"]}, {"dry-run": ["bare"], "alpha": ["flag"]}, {"dry-run": ["val", "-x"]},
-             {"alpha": ["flag"], "dry-run": ["val", "x"]}]
+def _argument_assignments(spec, pos_pool, rng, keep):
+    oalts = [{}, {"dry-run": ["bare"], "alpha": ["flag"]}, {"dry-run": ["val", "-x"]}]
     for p in G.positional_alternatives(spec["args"], pos_pool, 2):
         for od in oalts:
-            yield {"o": dict(od), "p": p}
+            if keep >= 1.0 or rng.random() < keep:
+                yield {"o": dict(od), "p": p}
 
 
 # ------------------------------------------------------------------ the checks
@@ -151,51 +153,74 @@ def bounded(ctx):
     quick = ctx.quick
     rng = ctx.rng
 
-    # 1 -- every variant of one option
+    def spell_text(cap_all, k_over):
+        if not cap_all:
+            return "%d seeded spellings per assignment" % k_over
+        return "all spellings of an assignment when it has at most %d, else %d seeded ones" % (cap_all, k_over)
+
+    def finish(r, exhaustive_possible):
+        ctx.done(exhaustive=exhaustive_possible and not r.capped and not r.stopped, note=r.note())
+
+    # 1a -- every variant of one option, flat surroundings
+    cap, k = (0, 4) if quick else (3000, 40)
     ctx.check("roundtrip_one_option",
-              "every single-option format: value mode x type x nullable x short name x default None/typed (112 variants) x 3 "
-              "surroundings (no argument; 1 command name with alias + 1 required str argument; 2 command names + optional int "
-              "argument + multi-valued str argument, option and first argument in a base format) x all assignments (option unset "
-              "/ each of the 6 pool values of its type / bare / value sequences of length 1-2 over 3 values; positionals over 2 "
-              "values, multi 0-2 values) x " + ("6 seeded spellings per assignment" if quick else "all spellings (cap 3000 per assignment)")
-              + " x strict/lenient")
+              "every single-option format: value mode x type x nullable x short name x default None/typed (112 variants) x 2 "
+              "surroundings (no argument, no name; 1 command name with alias + 1 required str argument) x all assignments (option "
+              "unset / each of the 6 pool values of its type / bare / value sequences of length 1-2 over 3 values; positional over "
+              "'x' and '') x " + spell_text(cap, k) + " x strict/lenient")
     r = _Runner(ctx)
-    for spec in one_option_formats():
-        r.format(spec, G.all_assignments(spec, pool=6, pos_pool=2, multi_max=2, multi_pool=3), not quick, 3000, 6, rng)
+    for spec in one_option_formats(False):
+        r.format(spec, G.all_assignments(spec, pool=6, pos_pool=2, multi_max=2, multi_pool=3), cap, k, rng)
         if r.stopped:
             break
-    ctx.done(exhaustive=(not quick) and not r.capped and not r.stopped, note=r.note())
+    finish(r, not quick)
+
+    # 1b -- every variant of one option under two command names, base format, optional + multi-valued arguments
+    pool, mpool, k = (3, 2, 2) if quick else (6, 3, 24)
+    ctx.check("roundtrip_one_option_nested",
+              "the 112 single-option variants in a base format that also holds the first of 2 command names (with aliases) and an "
+              "optional int argument named cmd11 (default 5), own format: second name + multi-valued str argument; all assignments "
+              "(option over the first %d pool values, sequences of length 1-2 over %d values; positionals over 2 values, multi 0-2) "
+              "x %d seeded spellings x strict/lenient" % (pool, mpool, k))
+    r = _Runner(ctx)
+    for spec in one_option_formats(True):
+        r.format(spec, G.all_assignments(spec, pool=pool, pos_pool=2, multi_max=2, multi_pool=mpool), 0, k, rng)
+        if r.stopped:
+            break
+    finish(r, False)
 
     # 2 -- two (three) options together: groups, bare option followed by another option, value lookahead
+    cap, k = (0, 1) if quick else (200, 30)
     ctx.check("roundtrip_option_pairs",
-              "every ordered pair of value modes (16) x 4 type pairs x 3 variants (plain / nullable / second without short name, "
+              "every ordered pair of value modes (16) x 4 type pairs x 3 variants (plain / nullable / second without short name and "
               "first with typed default) in 2 surroundings (1 required argument; 1 command name + multi-valued argument + a third "
               "short flag, first option in a base format) x all assignments over 2-value pools (bare, sequences of length 1-2) x "
-              + ("4 seeded spellings per assignment" if quick else "all spellings (cap 1500 per assignment)") + " x strict/lenient")
+              + spell_text(cap, k) + " x strict/lenient")
     r = _Runner(ctx)
     for spec in option_pair_formats():
-        r.format(spec, G.all_assignments(spec, pool=2, pos_pool=1, multi_max=2, multi_pool=2), not quick, 1500, 4, rng)
+        r.format(spec, G.all_assignments(spec, pool=2, pos_pool=1, multi_max=2, multi_pool=2), cap, k, rng)
         if r.stopped:
             break
-    ctx.done(exhaustive=(not quick) and not r.capped and not r.stopped, note=r.note())
+    finish(r, False)
 
     # 3 -- arguments
+    ppool, keep, cap, k = (2, 0.3, 0, 1) if quick else (3, 1.0, 40, 6)
     ctx.check("roundtrip_arguments",
-              "every valid argument list of length 0-%d over kind (required/optional/multi/required-multi) x type x nullable x "
+              "every valid argument list of length 0-2 over kind (required/optional/multi/required-multi) x type x nullable x "
               "default None/typed, x 0/1/2 command names with aliases (2 names: first name, flag and first argument in a base "
               "format), with a short flag and an optional-value option; positional values over the first %d pool values of each "
-              "type (incl. '' and dash-led values that need `--`), multi 0-2 values, x 5 option assignments x %s x strict/lenient"
-              % ((2, 2, "3 seeded spellings per assignment") if quick else (3, 3, "all spellings (cap 800 per assignment)")))
+              "type (incl. '' and dash-led values that need `--`), multi 0-2 values, x 3 option assignments%s x %s x strict/lenient"
+              % (ppool, "" if keep >= 1 else " (each (positionals, options) combination kept with probability %.1f, seeded)" % keep,
+                 spell_text(cap, k)))
     r = _Runner(ctx)
-    for spec in argument_formats(2 if quick else 3):
-        r.format(spec, _argument_assignments(spec, 2 if quick else 3), not quick, 800, 3, rng)
+    for spec in argument_formats(2):
+        r.format(spec, _argument_assignments(spec, ppool, rng, keep), cap, k, rng)
         if r.stopped:
             break
-    ctx.done(exhaustive=(not quick) and not r.capped and not r.stopped, note=r.note())
+    finish(r, False)
 
     # 4 -- random larger formats
-    nfmt = 500 if quick else 20000
-    nas, nsp = (3, 2) if quick else (3, 4)
+    nfmt, nas, nsp = (1500, 3, 2) if quick else (20000, 3, 6)
     ctx.check("roundtrip_random",
               "%d seeded random formats (0-5 options over every mode/type/nullable/short/default, 0-4 typed arguments, 0-2 command "
               "names with aliases, 40%% with a random base split) x %d random assignments (values from the 6-value pools, positionals "
@@ -203,10 +228,10 @@ def bounded(ctx):
     r = _Runner(ctx)
     for _ in range(nfmt):
         spec = G.random_format(rng)
-        r.format(spec, [G.random_assignment(rng, spec) for _ in range(nas)], False, 0, nsp, rng)
+        r.format(spec, [G.random_assignment(rng, spec) for _ in range(nas)], 0, nsp, rng)
         if r.stopped:
             break
-    ctx.done(exhaustive=False, note=r.note())
+    finish(r, False)
 
 
 def replay_bounded(check_id, failure):
